@@ -197,10 +197,51 @@ def run_impl(sc):
             asm['mutable'] = True
         except AttributeError:
             pass
+        asm['after'] = afterwards(pt, objs, idx)
     except Exception as e:  # noqa
         n = type(e).__name__
         asm = dict(err=n if n in scen.EXN else 'Other:' + n)
     return dict(calls=outs, asm=asm, oracle=orc)
+
+
+def afterwards(pt, objs, idx):
+    """'cannot be changed afterwards': use the assembled powertrain the way a script would go on using it -- re-declare every worm
+    mating of the chain with a friction coefficient on the other side of its self-locking threshold, simulate, reset, then extend
+    the chain behind the last element -- and observe elements / self_locking again"""
+    from gearpy.solver import Solver
+    log = []
+    chain = list(pt.elements)
+    for o in chain:
+        if isinstance(o, WormGear):
+            for mate, worm_is_master in ((getattr(o, 'drives', None), True), (getattr(o, 'driven_by', None), False)):
+                if isinstance(mate, WormWheel):
+                    f2 = 1e-3 if o.self_locking else 0.99
+                    try:
+                        add_worm_gear_mating(master=o if worm_is_master else mate, slave=mate if worm_is_master else o, friction_coefficient=f2)
+                        log.append(f'worm mating of {o.name} re-declared with friction {f2}')
+                    except Exception as e:  # noqa
+                        log.append(f're-declaration raised {type(e).__name__}')
+    try:
+        last = chain[-1]
+        last.external_torque = lambda: U.Torque(0, 'Nm')
+        last.angular_position = U.AngularPosition(0, 'rad')
+        last.angular_speed = U.AngularSpeed(0, 'rad/s')
+        Solver(powertrain=pt).run(time_discretization=U.TimeInterval(1, 'ms'), simulation_time=U.TimeInterval(3, 'ms'))
+        log.append('run')
+    except Exception as e:  # noqa
+        log.append(f'run raised {type(e).__name__}')
+    try:
+        pt.reset()
+        log.append('reset')
+    except Exception as e:  # noqa
+        log.append(f'reset raised {type(e).__name__}')
+    mid = dict(ids=[idx.get(id(o), -1) for o in pt.elements], selflock=bool(pt.self_locking))
+    try:
+        add_fixed_joint(master=chain[-1], slave=Flywheel(name='appended afterwards', inertia_moment=U.InertiaMoment(1e-4, 'kgm^2')))
+        log.append('joint appended behind the last element')
+    except Exception as e:  # noqa
+        log.append(f'appending raised {type(e).__name__}')
+    return dict(mid=mid, ids=[idx.get(id(o), -1) for o in pt.elements], selflock=bool(pt.self_locking), log=log)
 
 
 def cdecl(e):
@@ -231,7 +272,9 @@ def ccall(c, out):
 def case_coq(sc, r):
     a = r['asm']
     if a['err'] is None:
-        asm = f'(AsmOk {scen.clist([f"{i}%nat" for i in a["ids"]])} {"true" if a["selflock"] else "false"})'
+        fin = a.get('after') or a                 # what the powertrain shows after it has been used (it must still be the assembled value)
+        ids = fin['ids'] if all(i >= 0 for i in fin['ids']) else fin['ids'][:-1] + [len(sc['elems'])]
+        asm = f'(AsmOk {scen.clist([f"{i}%nat" for i in ids])} {"true" if fin["selflock"] else "false"})'
     else:
         asm = f'(AsmErr {a["err"] if not a["err"].startswith("Other") else "OracleMiss"})'
     return (f'{{| rc_elems := {scen.clist([cdecl(e) for e in sc["elems"]])}; rc_calls := {scen.clist([ccall(c, o) for c, o in zip(sc["calls"], r["calls"])])}; '
@@ -399,6 +442,10 @@ def c20_check(sc, r):
     want = any(sc['elems'][x]['kind'] == 'worm' and st[x]['lock'] == 2 for x in path)
     if a['selflock'] != want:
         out.append(W('self-locking', f'powertrain.self_locking is {a["selflock"]}, worm flags along the chain {[(x, st[x]["lock"] == 2) for x in path if sc["elems"][x]["kind"] == "worm"]}'))
+    af = a.get('after')
+    if af and (af['mid']['ids'] != a['ids'] or af['mid']['selflock'] != a['selflock'] or af['ids'] != a['ids'] or af['selflock'] != a['selflock']):
+        out.append(W('changed-afterwards', f'at assembly elements {a["ids"]} self_locking {a["selflock"]}; after [{"; ".join(af["log"])}]: '
+                                           f'elements {af["mid"]["ids"]} -> {af["ids"]}, self_locking {af["mid"]["selflock"]} -> {af["selflock"]}'))
     if a.get('mutable') or not a.get('tuple'):
         out.append(W('mutable', 'powertrain.elements / self_locking can be reassigned, or elements is not a tuple'))
     return out
